@@ -427,6 +427,9 @@ def _names(rng, cls, vol, R, C):
     pool = list(_NAMEPOOL)
     rng.shuffle(pool)
 
+    if rng.random() < 0.08:
+        pool[0] = ""
+
     def pick(i):
         if mode == "shared":
             return pool[i % 3]
@@ -614,12 +617,12 @@ def _faulty(rng):
             for cc in range(C):
                 if vol[0][cc] > 0 and rng.random() < 0.5:
                     nm[cc] = f"n{cc}"
-            nm[c] = rng.choice(_NAMEPOOL)
+            nm[c] = rng.choice(_NAMEPOOL + [""])
             spec["names"] = nm[0] if C == 1 and rng.random() < 0.5 else nm
         else:
             spec["initial_volumes"] = list(flat) if rng.random() < 0.5 else [list(row) for row in vol]
             nm = {wid(rr, cc): f"n{rr}.{cc}" for rr in range(R) for cc in range(C) if vol[rr][cc] > 0 and rng.random() < 0.5}
-            nm[wid(r, c)] = rng.choice(_NAMEPOOL)
+            nm[wid(r, c)] = rng.choice(_NAMEPOOL + ["", ""])  # the empty string is a name like any other
             spec["names"] = nm
         if all(x == 0 for x in flat) and rng.random() < 0.5:
             spec.pop("initial_volumes")
